@@ -75,6 +75,14 @@ def code_changed(base, cur):
     return base.get('sha') != cur.get('sha')
 
 
+def clause_label(fl):
+    """label of a failed clause as the native checker prints it: 'post:[C17] name-of-the-clause ...' -> tag and name"""
+    tk = fl.split(' ')
+    if tk[0].endswith(']') and len(tk) > 1:
+        return tk[0] + ' ' + tk[1]
+    return tk[0]
+
+
 def stable_name(name):
     return re.sub(r'@L\d+', '', name)
 
@@ -180,10 +188,26 @@ def run_property(pid, tier, seed, out=sys.stdout):
         except (Unsupported, ContractError) as e:
             struct_results.append(dict(name=s['name'], ok=None, detail="%s: %s" % (type(e).__name__, e), fn=''))
 
+    # binary64 obligations (pyvc/fpkernel.py): generated from the real source, discharged by z3's FloatingPoint theory
+    fp_runs = []
+    for fs in getattr(S, 'FPSPECS', []):
+        if pid not in fs['props']:
+            continue
+        from pyvc import fpkernel
+        try:
+            fres, finfo = fpkernel.run(fs, Repo(), timeout_s * 4, procs=12)
+            fp_runs.append((fs, fres, finfo, None))
+        except (fpkernel.FPUnsupported, Unsupported, ContractError) as e:
+            fp_runs.append((fs, [], {}, "%s: %s" % (type(e).__name__, e)))
+
     baseline = load_baseline()
     known = [k for k in load_known() if k.get('property') == pid]
     known_open = {k['obligation']: k for k in known if k.get('status') == 'open'}
     known_open_all = [k['obligation'] for k in load_known() if k.get('status') == 'open']
+    known_native_clauses = {}       # function -> clause labels by which an open finding shows in the native run-time check
+    for k in load_known():
+        if k.get('status') == 'open' and k.get('native_clauses'):
+            known_native_clauses.setdefault(k['obligation'].split(':')[0], set()).update(k['native_clauses'])
 
     # ---- bounded stand-in / counterexample finder: run-time contracts on the real functions
     bounded = []
@@ -228,11 +252,11 @@ def run_property(pid, tier, seed, out=sys.stdout):
         or is a listed open finding"""
         short = q.replace('fast_ticc.', '').split('#')[0]
         for fl in f['failed']:
-            lab = fl.split(' ')[0]
+            lab = clause_label(fl)
             mt = re.search(r'\[(C\d+(?:,C\d+)*)\]', fl)
             if mt and pid not in mt.group(1).split(','):
                 continue
-            if any(k.startswith(short) and (lab in k or fl in k) for k in known_open_all):
+            if any(k.startswith(short) and (lab in k or fl in k) for k in known_open_all) or lab in known_native_clauses.get(short, ()):
                 continue
             return True
         return False
@@ -244,7 +268,7 @@ def run_property(pid, tier, seed, out=sys.stdout):
         label = obname.split(':', 1)[1] if ':' in obname else obname
         for f in nr.get('failures', []):
             for fl in f['failed']:
-                if fl.split(' ')[0] == label or label.startswith(fl.split(' ')[0]) or fl.split(' ')[0] in label:
+                if clause_label(fl) == label or label.startswith(clause_label(fl)) or clause_label(fl) in label:
                     return f
         # any failure of the same function is still a concrete failing input for the function's contract
         return (nr.get('failures') or [None])[0]
@@ -295,7 +319,7 @@ def run_property(pid, tier, seed, out=sys.stdout):
             # verifier; the run-time check of the same contract on the real function may still exhibit a failing input
             nf = native_failure_for(q, name)
             if nf:
-                vname = q.replace('fast_ticc.', '') + ':' + nf['failed'][0].split(' ')[0]
+                vname = q.replace('fast_ticc.', '') + ':' + clause_label(nf['failed'][0])
                 path = os.path.join(VERIF, 'replays', '%s-%s.json' % (pid, sanitize(vname)))
                 json.dump(dict(property=pid, obligation=vname, function=q, verdict='native-contract-failure (function outside the verified subset: %s)' % name,
                                solver_output=None, native=dict(qualname=q, seed=nf['seed'], index=nf['index'], args=nf['args'],
@@ -311,7 +335,7 @@ def run_property(pid, tier, seed, out=sys.stdout):
         label_match = False
         if nf:
             lab = name.split(':', 1)[1]
-            label_match = any(fl.split(' ')[0] in lab or lab in fl for fl in nf['failed'])
+            label_match = any(clause_label(fl) in lab or lab in fl for fl in nf['failed'])
         entry = dict(obligation=name, function=q, kind=ob.kind, line=ob.lineno, trail=ob.trail,
                      solver=r['backend'], verdict='refuted' if refuted else 'unknown',
                      solver_output=r.get('info'), source_sha=per[q].get('sha'))
@@ -379,9 +403,10 @@ def run_property(pid, tier, seed, out=sys.stdout):
     for q in fucs:
         if per[q].get('error'):
             nr = native_by_fn.get(q) or {}
-            if nr.get('failures'):
-                nf = nr['failures'][0]
-                name = q.replace('fast_ticc.', '') + ':' + nf['failed'][0].split(' ')[0]
+            rel = [f for f in nr.get('failures', []) if relevant(q, f)]     # (failures that ARE a listed open finding do not count)
+            if rel:
+                nf = rel[0]
+                name = q.replace('fast_ticc.', '') + ':' + clause_label(([x for x in nf['failed'] if clause_label(x) not in known_native_clauses.get(q.replace('fast_ticc.', '').split('#')[0], ())] or nf['failed'])[0])
                 if name in known_open:
                     known_hits.append((known_open[name], dict(obligation=name), nf))
                     refuted_known.append(dict(obligation=name, witness=known_open[name].get('witness')))
@@ -423,6 +448,91 @@ def run_property(pid, tier, seed, out=sys.stdout):
                            solver_output=sr['detail'], native=None), open(path, 'w'), indent=1)
             violations.append((name, path, False))
 
+    fp_evidence = []
+    for fs, fres, finfo, ferr in fp_runs:
+        q = fs['qualname']
+        fname = "fp64:%s:post:%s" % (q.replace('fast_ticc.', ''), fs['label'])
+        if ferr:
+            undecided.append(dict(obligation=fname, why='binary64 extraction: ' + ferr))
+            fp_evidence.append(dict(function=q, error=ferr))
+            continue
+        # cross-check of the extraction (bounded, not counted as proved): z3's value of the extracted term against what the
+        # real function returns, bit for bit, at 200 points
+        try:
+            cvals = fpkernel.concrete_values(fs, Repo(), 200, seed)
+            cp = subprocess.run([NATIVE_PY, os.path.join(VERIF, 'native', 'fp_replay.py'),
+                                 json.dumps(dict(qualname=q, native_args=fs['native_args'], native_ok=fs['native_ok'], ranges={}, compare=cvals))],
+                                capture_output=True, text=True, env=dict(os.environ, NUMBA_DISABLE_JIT='1', PYTHONPATH=os.environ.get('PYVC_REPO_SRC', '/repo/src')))
+            xc = json.loads(cp.stdout.strip().splitlines()[-1])
+        except Exception as e:      # noqa
+            xc = dict(status='error', why=repr(e)[:300])
+        finfo['encoding_cross_check'] = xc
+        bounded.append(dict(function=q, kind='bounded cross-check of the binary64 extraction against the real function (NOT counted as proved)',
+                            cases=xc.get('cases', 0), failures=0 if xc.get('status') == 'ok' else 1,
+                            bound='200 points, magnitudes 1e-100..1e100, bit-for-bit comparison', outcome=xc))
+        if xc.get('status') != 'ok':
+            undecided.append(dict(obligation='fp64:%s:encoding' % q.replace('fast_ticc.', ''),
+                                  why='the extracted binary64 term does not reproduce the real function: %s' % str(xc)[:300]))
+        fp_evidence.append(dict(finfo, obligations=[dict(name=r['name'], verdict=r['verdict'], s=round(r['time'], 2)) for r in fres]))
+        bad = [r for r in fres if r['verdict'] != solve.PROVED]
+        for r in fres:
+            total += 1
+            solver_s += r['time']
+            by_backend[r['backend']] = by_backend.get(r['backend'], 0) + 1
+            if r['verdict'] == solve.PROVED:
+                discharged += 1
+        if fres and not bad and sum(1 for x in samples if x.get('kind') == 'fp64') < 2:
+            samples.append(dict(obligation=fres[-1]['name'], kind='fp64', function=q, verdict='proved', backend='z3-fp64',
+                                solver_s=round(sum(r['time'] for r in fres), 2)))
+        if not bad:
+            continue
+        # a concrete input: the solver's model of the whole expression, else a sweep over magnitudes -- replayed on the real function
+        rspec = dict(qualname=q, native_args=fs['native_args'], native_ok=fs['native_ok'],
+                     ranges={k: list(v) for k, v in fs['inputs'].items()}, point=None)
+        tried = []
+        fail = None
+        for point in (None, 'solver'):
+            if point == 'solver':
+                # the sweep found nothing: ask the solver for a model of the whole (uncut) expression and replay that
+                try:
+                    ws = fpkernel.whole_search(fs, Repo(), min(timeout_s * 2, 120))
+                except Exception as e:      # noqa
+                    ws = dict(result='error: %s' % e)
+                finfo['whole_expression_search'] = ws
+                point = ws.get('counterexample')
+                if not point or any(v is None for v in point.values()):
+                    break
+            pr = subprocess.run([NATIVE_PY, os.path.join(VERIF, 'native', 'fp_replay.py'), json.dumps(dict(rspec, point=point))],
+                                capture_output=True, text=True, env=dict(os.environ, NUMBA_DISABLE_JIT='1', PYTHONPATH=os.path.join(os.path.dirname(os.environ.get('PYVC_REPO_SRC', '/repo/src')), 'src')))
+            try:
+                out_j = json.loads(pr.stdout.strip().splitlines()[-1])
+            except Exception:
+                out_j = dict(status='error', why=(pr.stderr or pr.stdout)[-300:])
+            tried.append(dict(point=point, outcome=out_j))
+            if out_j.get('status') == 'fail':
+                fail = out_j
+                break
+        name = bad[-1]['name'] if bad[-1]['name'].endswith(fs['label']) else bad[0]['name']
+        path = os.path.join(VERIF, 'replays', '%s-%s.json' % (pid, sanitize(name)))
+        entry = dict(property=pid, obligation=name, function=q, kind='fp64',
+                     verdict='; '.join('%s: %s' % (r['name'], r['verdict']) for r in bad)[:1500],
+                     solver_output=dict(models=[r.get('model') for r in bad][:3], whole_expression_search=finfo.get('whole_expression_search')),
+                     source_sha=finfo.get('sha'), counterexample_replay=tried)
+        base = baseline.get(q)
+        if fail:
+            entry['native'] = dict(fp_replay=dict(rspec, point=fail['input']), result=fail.get('result'))
+            json.dump(entry, open(path, 'w'), indent=1, default=str)
+            violations.append((name, path, True))
+        elif base is not None and q in per and per[q].get('ast_sha') and code_changed(base, per[q]):
+            entry['native'] = None
+            entry['verdict'] = 'not discharged on changed code; ' + entry['verdict']
+            entry['reference_sha'] = base.get('ast_sha')
+            json.dump(entry, open(path, 'w'), indent=1, default=str)
+            violations.append((name, path, False))
+        else:
+            for r in bad:
+                undecided.append(dict(obligation=r['name'], why='binary64 obligation: %s' % r['verdict']))
+
     # property-level bounded/native stand-ins registered by the contracts (e.g. end-to-end runs)
     for b, br in bounded_results:
             bounded.append(br)
@@ -463,7 +573,7 @@ def run_property(pid, tier, seed, out=sys.stdout):
                             bounded=bounded, undecided=undecided, refuted_known=refuted_known,
                             vacuity_unchecked=vacuity_unchecked,
                             path_obligations=len(obls), lemmas=[l['name'] for l in lemma_results], lemmas_not_run_in_this_tier=lean_skipped,
-                            structural=[s['name'] for s in struct_results],
+                            structural=[s['name'] for s in struct_results], fp64=fp_evidence,
                             explanation="obligations = distinct named obligations (each may have several per-path queries; all paths must be discharged); bounded[] entries are run-time contract checks and are not part of obligations/discharged"),
               assumptions=assumptions, wall_s=round(time.time() - t_start, 2), violations=len(violations))
     if os.environ.get('PYVC_RECORD_BASELINE'):
@@ -521,6 +631,15 @@ def replay(pid, path):
         again = [f for f in br.get('failing', []) if f['what'] == nat['what']]
         print(json.dumps(again[:3], default=str)[:3000])
         if again:
+            print("VIOLATION property=%s replay=%s" % (pid, path))
+            return 1
+        print("replay did not reproduce on the current tree")
+        return 0
+    if rep['native'].get('fp_replay'):
+        p = subprocess.run([NATIVE_PY, os.path.join(VERIF, 'native', 'fp_replay.py'), json.dumps(rep['native']['fp_replay'])],
+                           capture_output=True, text=True, env=dict(os.environ, NUMBA_DISABLE_JIT='1'))
+        print(p.stdout.strip()[-2000:])
+        if p.returncode == 1:
             print("VIOLATION property=%s replay=%s" % (pid, path))
             return 1
         print("replay did not reproduce on the current tree")
